@@ -5,7 +5,7 @@ LEVEL = "exploration"
 def plan(tier, seed):
     quick = tier == "quick"
     nshards = 16
-    cases = 1500 if quick else 60000
+    cases = 3000 if quick else 60000
     return dict(
         builds=[("asan", "c01")],
         shards=[dict(bin=("asan", "c01"), args=["--cases", cases]) for _ in range(nshards)],
